@@ -8,7 +8,8 @@ def truncate_chars(val: str, num: int, end: str = "...") -> str:
     val_length = len(val)
     end_length = len(end)
 
-    if val_length < num:
+    if val_length <= num:
+        # Already short enough: nothing to cut, so no `end`.
         return val
 
     # Don't let a negative bound count from the end of `val`.
